@@ -13,6 +13,7 @@ import (
 	"strings"
 
 	"golang.org/x/tools/go/ssa"
+	"golang.org/x/tools/go/types/typeutil"
 )
 
 // New functions are analysed as if inlined into their callers.
@@ -40,6 +41,7 @@ type baselineFns struct {
 	loaded bool
 	fns    map[string]bool
 	sigs   map[string]string // reviewed function -> package|receiver|exported|signature
+	prints map[string][]string // reviewed function -> what its body mentions (callees, string literals)
 }
 
 func (w *World) loadBaseline(verifDir string) error {
@@ -48,15 +50,21 @@ func (w *World) loadBaseline(verifDir string) error {
 		return err
 	}
 	var doc struct {
-		Functions map[string]string `json:"functions"`
+		Functions map[string]struct {
+			Sig string   `json:"sig"`
+			Fp  []string `json:"fp"`
+		} `json:"functions"`
 	}
 	if err := json.Unmarshal(b, &doc); err != nil {
 		return err
 	}
 	w.base.fns = map[string]bool{}
-	w.base.sigs = doc.Functions
-	for f := range doc.Functions {
+	w.base.sigs = map[string]string{}
+	w.base.prints = map[string][]string{}
+	for f, d := range doc.Functions {
 		w.base.fns[f] = true
+		w.base.sigs[f] = d.Sig
+		w.base.prints[f] = d.Fp
 	}
 	if len(w.base.fns) < 500 {
 		return fmt.Errorf("tables/functions.json lists only %d functions", len(w.base.fns))
@@ -66,9 +74,9 @@ func (w *World) loadBaseline(verifDir string) error {
 }
 
 func (w *World) dumpFunctions() []byte {
-	ks := map[string]string{}
+	ks := map[string]any{}
 	for k, fi := range w.Funcs {
-		ks[k] = funcSigKey(fi)
+		ks[k] = map[string]any{"sig": funcSigKey(fi), "fp": bodyPrint(fi)}
 	}
 	b, _ := json.MarshalIndent(map[string]any{
 		"_comment":  "functions of gleece on the tree the rules were reviewed against (with package|receiver|exported|signature); a function not listed here is analysed as if inlined into its callers, unless it is a listed function under a new name (checker/inline.go)",
@@ -895,7 +903,18 @@ func funcSigKey(fi *FuncInfo) string {
 	if ast.IsExported(fi.Decl.Name.Name) {
 		exported = "e"
 	}
-	return short(fi.Pkg.PkgPath) + "|" + recv + "|" + exported + "|" + short(types.TypeString(types.NewSignatureType(nil, nil, nil, sig.Params(), sig.Results(), sig.Variadic()), nil))
+	tuple := func(t *types.Tuple) string {
+		var ps []string
+		for i := 0; i < t.Len(); i++ {
+			ps = append(ps, short(types.TypeString(t.At(i).Type(), nil))) // types only: parameter names are free
+		}
+		return "(" + strings.Join(ps, ", ") + ")"
+	}
+	variadic := ""
+	if sig.Variadic() {
+		variadic = "..."
+	}
+	return short(fi.Pkg.PkgPath) + "|" + recv + "|" + exported + "|func" + tuple(sig.Params()) + variadic + tuple(sig.Results())
 }
 
 func (w *World) detectRenames() {
@@ -916,8 +935,32 @@ func (w *World) detectRenames() {
 		}
 	}
 	for sg, news := range bySig {
-		if gone := missingBySig[sg]; len(news) == 1 && len(gone) == 1 {
+		gone := missingBySig[sg]
+		if len(news) == 1 && len(gone) == 1 {
 			nameAlias[news[0]] = gone[0]
+			continue
+		}
+		// several functions of one signature were renamed at once: pair them by what their bodies mention
+		sort.Strings(news)
+		sort.Strings(gone)
+		taken := map[string]bool{}
+		for _, g := range gone {
+			best, bestSim, second := "", 0.0, 0.0
+			for _, n := range news {
+				if taken[n] {
+					continue
+				}
+				sim := jaccard(w.base.prints[g], bodyPrint(w.Funcs[n]))
+				if sim > bestSim {
+					best, second, bestSim = n, bestSim, sim
+				} else if sim > second {
+					second = sim
+				}
+			}
+			if best != "" && bestSim >= 0.5 && bestSim-second >= 0.15 {
+				nameAlias[best] = g
+				taken[best] = true
+			}
 		}
 	}
 	if len(nameAlias) == 0 {
@@ -932,4 +975,141 @@ func (w *World) detectRenames() {
 	implCache = map[*types.Func][]string{}
 	w.newMemo, w.newSites, w.newRefs, w.astSites, w.newParams, w.reach = nil, nil, nil, nil, nil, nil
 	w.stats["functions_renamed_since_review"] = len(nameAlias)
+}
+
+// resultConstants: the constant values a returned value can be (through phis, new functions,
+// and lookups in a map literal whose values are constants).
+func (w *World) resultConstants(v ssa.Value) []string {
+	var out []string
+	for _, ov := range w.originValues(v) {
+		switch x := ov.(type) {
+		case *ssa.Const:
+			if x.Value != nil {
+				out = append(out, constString(x.Value))
+			}
+		case *ssa.Lookup:
+			out = append(out, mapLiteralValues(x.X)...)
+		case *ssa.Extract:
+			if lk, ok := x.Tuple.(*ssa.Lookup); ok && x.Index == 0 {
+				out = append(out, mapLiteralValues(lk.X)...)
+			}
+		}
+	}
+	return out
+}
+
+// mapLiteralValues: the constant values stored into a map built in place (MakeMap +
+// MapUpdates) or loaded from a package-level variable initialised that way.
+func mapLiteralValues(m ssa.Value) []string {
+	var out []string
+	collect := func(mk ssa.Value) {
+		if refs := mk.Referrers(); refs != nil {
+			for _, r := range *refs {
+				if mu, ok := r.(*ssa.MapUpdate); ok && mu.Map == mk {
+					if k, ok := mu.Value.(*ssa.Const); ok && k.Value != nil {
+						out = append(out, constString(k.Value))
+					}
+				}
+			}
+		}
+	}
+	switch x := m.(type) {
+	case *ssa.MakeMap:
+		collect(x)
+	case *ssa.UnOp:
+		if g, ok := x.X.(*ssa.Global); ok && g.Pkg != nil {
+			// initialised in the package initialiser: the value stored into the global
+			if init := g.Pkg.Func("init"); init != nil {
+				for _, b := range init.Blocks {
+					for _, ins := range b.Instrs {
+						if st, ok := ins.(*ssa.Store); ok && st.Addr == ssa.Value(g) {
+							if mk, ok := st.Val.(*ssa.MakeMap); ok {
+								collect(mk)
+							}
+						}
+					}
+				}
+			}
+		}
+	}
+	return out
+}
+
+// bodyPrint: what a function body mentions - the functions it calls (renames of its own
+// callees aside) and its string literals; used only to tell apart functions of one signature
+// that were renamed together.
+func bodyPrint(fi *FuncInfo) []string {
+	set := map[string]bool{}
+	if fi.Decl.Body == nil {
+		return nil
+	}
+	info := fi.Pkg.TypesInfo
+	ast.Inspect(fi.Decl.Body, func(n ast.Node) bool {
+		switch x := n.(type) {
+		case *ast.CallExpr:
+			if o, ok := typeutil.Callee(info, x).(*types.Func); ok && o.Pkg() != nil && !isGleecePkg(o.Pkg().Path()) {
+				set["call:"+o.FullName()] = true
+			}
+		case *ast.BasicLit:
+			if x.Kind == token.STRING && len(x.Value) > 4 {
+				set["lit:"+x.Value] = true
+			}
+		case *ast.SelectorExpr:
+			if sel := info.Selections[x]; sel != nil && sel.Kind() == types.FieldVal {
+				set["field:"+x.Sel.Name] = true
+			}
+		}
+		return true
+	})
+	ks := keys(set)
+	if len(ks) > 80 {
+		ks = ks[:80]
+	}
+	return ks
+}
+
+func jaccard(a, b []string) float64 {
+	if len(a) == 0 && len(b) == 0 {
+		return 1
+	}
+	in := map[string]bool{}
+	for _, x := range a {
+		in[x] = true
+	}
+	n := 0
+	for _, x := range b {
+		if in[x] {
+			n++
+		}
+	}
+	u := len(a) + len(b) - n
+	if u == 0 {
+		return 0
+	}
+	return float64(n) / float64(u)
+}
+
+// absorbedInto: reviewed function `gone` no longer exists (and was not renamed) and host's
+// body now mentions everything gone's body mentioned (fields, library calls, string
+// literals): gone was inlined into host.
+func (w *World) absorbedInto(gone string, host *FuncInfo) bool {
+	if !w.base.loaded || !w.base.fns[gone] || w.Funcs[gone] != nil {
+		return false
+	}
+	fp := w.base.prints[gone]
+	if len(fp) == 0 {
+		return false
+	}
+	have := map[string]bool{}
+	for _, f := range w.astRegion(host) {
+		for _, x := range bodyPrint(f) {
+			have[x] = true
+		}
+	}
+	for _, x := range fp {
+		if !have[x] {
+			return false
+		}
+	}
+	return true
 }
